@@ -2964,7 +2964,7 @@ func (dsc *dataStoreCommand) sort(sourceKeyName, byPattern, destKeyName string, 
 			vals = make([]sortVal, 0, ss.count)
 			for i := ss.createIterator(); i.next(); {
 				sv := sortVal{
-					data: i.value.(string),
+					data: i.key,
 				}
 				vals = append(vals, sv)
 			}
